@@ -5,6 +5,10 @@ use crate::reg::Class;
 /// radius at step t (number of next calls so far) for window length n and output scale s
 pub fn radius(class: Class, n: f64, t: f64, s: f64, flops: f64) -> f64 {
 	let n = n.max(1.0);
+	if s == 0.0 {
+		// nothing but exact zeros so far: every linear update is exact
+		return 0.0;
+	}
 	let r = match class {
 		Class::Direct => C * EPS * s * (flops + n),
 		Class::Contraction => C * EPS * s * ((n + 1.0) / 2.0 + flops),
